@@ -245,9 +245,14 @@ class Monitor:
         r = self.r
         t = self.B.build(di)
         # the type has been in use before it is reconfigured (exported, printed, copied)
-        t.export_datatype()
-        repr(t)
-        t.copy()
+        try:
+            t.export_datatype()
+            repr(t)
+            t.copy()
+        except Exception as e:
+            r.violation(f'C03/use-raises/{di["type"]}', f'export_datatype / repr / copy of a freshly built type raises {type(e).__name__}: {e}'[:250],
+                        {'sub': 'reconfigured', 'spec': di})
+            return
         applied = []
         cand = list(nodes(t))
         rng.shuffle(cand)
